@@ -103,11 +103,14 @@ def validate_all(c, pid, tr, tag="", max_findings=3):
 ATTR_PRE = """#![allow(dead_code, unused)]
 use scale_info::TypeInfo; use core::marker::PhantomData;
 fn ok<T: TypeInfo + 'static>() { let _ = T::type_info(); }
+pub trait Cfg: TypeInfo + 'static { type A: TypeInfo + 'static; }      // T gets TypeInfo from the supertrait
+impl Cfg for u8 { type A = u16; }
 """
+OTHER = {"assoc": "T::A", "qassoc": "<T as Cfg>::A", "vec": "Vec<T>"}
 
 def item_src(it):
     k = it["k"]
-    if k == "bounds": return "bounds(%s)" % ", ".join("%s: ::scale_info::TypeInfo + 'static" % p for p in it["ps"])
+    if k == "bounds": return "bounds(%s)" % ", ".join("%s: ::scale_info::TypeInfo + 'static" % p for p in [OTHER[o] for o in it.get("other", [])] + list(it["ps"]))
     if k == "skip_type_params": return "skip_type_params(%s)" % ", ".join(it["ps"])
     if k == "capture_docs": return 'capture_docs = "%s"' % it["val"]
     if k == "crate": return "crate = ::scale_info"
@@ -119,7 +122,7 @@ def attr_program(items, split):
     """split: one #[scale_info(..)] per item, or all items in one attribute"""
     srcs = [item_src(i) for i in items]
     attrs = "".join("#[scale_info(%s)]\n" % s for s in srcs) if split else ("#[scale_info(%s)]\n" % ", ".join(srcs) if srcs else "")
-    return ATTR_PRE + "#[derive(TypeInfo)]\n" + attrs + "struct S<T, U> { m: PhantomData<T>, n: PhantomData<U>, k: u8 }\nfn main() { ok::<S<u8, u16>>(); }\n"
+    return ATTR_PRE + "#[derive(TypeInfo)]\n" + attrs + "struct S<T: Cfg, U> { m: PhantomData<T>, n: PhantomData<U>, k: u8 }\nfn main() { ok::<S<u8, u16>>(); }\n"
 
 def c20_derive_half(c, tier):
     wd = c.wd
